@@ -45,6 +45,12 @@ def resolve (cwd : Path) : P → Path
 /-- `p` is `d` or lives below `d` -/
 def under (d p : Path) : Bool := d.isPrefixOf p
 
+/-- A relative Python `Path` that starts with `n` components `..` (`package.out: ../../artifacts`): the directory the operating
+    system reaches from the working directory `cwd` of the call. Component lists here are normalised (no `..`), so such a
+    path is represented by its resolution against the cwd *of the call* — exact for every use inside one operation because the
+    working directory at every use is the one of the call (`run_restores_cwd`: `execute` restores it on every branch). -/
+def P.upFrom (cwd : Path) (n : Nat) (c : Path) : P := .abs (cwd.take (cwd.length - n) ++ c)
+
 inductive ToolResult
   | ok
   | missing      -- `shutil.which` finds nothing
@@ -421,6 +427,9 @@ structure Obs where
   outBefore : List Path     -- files below the package output directory (relative to it)
   outAfter : List Path
   ranIn : List Path         -- per logged invocation the directory it ran in
+  /-- directories the configuration sends the operation to besides the caller's working directory: the resolved `package.out`
+      (it holds the build and package directories the tools are started in) — it need not lie below the caller's directory -/
+  workRoots : List Path := []
 deriving Repr, Inhabited
 
 /-- The property on one observation. `fault = none`: all tools succeed. `some (k, handled)`: the `k`-th invocation
@@ -428,7 +437,7 @@ deriving Repr, Inhabited
     that the failing one may not exceed. Returns the violated clauses. -/
 def spec (key phase : String) (fault : Option (Nat × Bool)) (maxLogged : Nat) (o : Obs) : List String :=
   let cwd := if o.cwdAfter == o.cwdBefore then [] else ["cwd-not-restored"]
-  let ran := if o.ranIn.all (under o.cwdBefore) then [] else ["ran-outside-caller-directory"]
+  let ran := if o.ranIn.all (fun d => under o.cwdBefore d || o.workRoots.any (fun r => under r d)) then [] else ["ran-outside-caller-directory"]
   match fault with
   | none =>
     (if o.code == none then [] else ["unexpected-failure"]) ++ cwd ++ ran
